@@ -52,6 +52,13 @@ type VhFront struct {
 	Path     string
 }
 
+// the directory the fixture files are said to live in. Nothing is written there in the engine; natively the files
+// have to exist (FileVersion stats and hashes them) and the replay driver points TMPDIR at its own scratch directory,
+// so concurrent checks do not share it and it disappears with the scratch directory.
+func vhFrontDir() string {
+	return filepath.Join(os.TempDir(), "gosym-vh-front")
+}
+
 // VhLoadSource parses and type-checks src as the single file of package example.com/ctl and wires up a visiting context.
 func VhLoadSource(src string, patch func(f *ast.File)) (*VhFront, error) {
 	return VhLoadSources([]string{"ctl.go"}, []string{src}, patch)
@@ -59,7 +66,7 @@ func VhLoadSource(src string, patch func(f *ast.File)) (*VhFront, error) {
 
 // VhLoadSources does the same for a package of several files (patch is applied to each parsed file).
 func VhLoadSources(names []string, srcs []string, patch func(f *ast.File)) (*VhFront, error) {
-	dir := filepath.Join(os.TempDir(), "gosym-vh-front")
+	dir := vhFrontDir()
 	facade := arbitrators.VhNewFacade()
 	fset := facade.FSet()
 	var files []*ast.File
